@@ -53,7 +53,7 @@ CEX_GROUPS = {
     "process_key": ["name_lookup", "e2e"], "process_descendant": ["descendant", "e2e"], "process_selectors": ["selectors", "e2e"], "process_wildcard": ["e2e"],
     "eq_json": ["cmp_struct", "e2e_cmp"], "eq_arrays": ["cmp_struct"], "eq_ref_to_array": ["cmp_struct"], "Comparison::process": ["e2e_cmp"], "Comparable::process": ["e2e_cmp"],
     "Literal::process": ["e2e_cmp"], "SingularQuery::process": ["e2e_cmp"], "SingularQuerySegment::process": ["e2e_cmp"], "Vec<SingularQuerySegment>::process": ["e2e_cmp"],
-    "FnArg::process": ["e2e_fn"], "TestFunction::process": ["e2e_fn"], "Value::extension_custom": ["ext_direct"], "custom": ["e2e_ext"],
+    "FnArg::process": ["e2e_fn"], "TestFunction::process": ["e2e_fn"], "Value::extension_custom": ["ext_direct"], "custom": ["e2e_ext"], "regex": ["regex", "e2e_fn"], "TestFunction::try_new": ["text_ext", "text_filter"],
     "js_path": ["text_plain", "text_union"], "js_path_vals": ["text_plain", "text_union"], "js_path_path": ["text_plain", "text_union"], "js_path_process": ["e2e"],
     "JsonPath::query": ["text_plain", "text_union"], "JsonPath::query_only_path": ["text_plain", "text_union"], "JsonPath::query_with_path": ["text_plain", "text_union"],
     "Data::flat_map": ["e2e"], "Data::reduce": ["e2e"], "State::flat_map": ["e2e"], "State::reduce": ["e2e"], "Segment::process": ["e2e"], "Selector::process": ["e2e"],
